@@ -360,7 +360,13 @@ def make_sim(c, state, seed, max_cycles=1):
         tmpl = template(c["species"])
         mc = E["GrandCanonical"](atoms, exchange_atoms=tmpl, temperature=c["T"], chemical_potential=c["mu"],
                                  number_of_exchange_particles=state["N"], max_cycles=max_cycles, seed=seed)
-        mc.add_move(E["ExchangeMove"](np.array(state["labels"], dtype=int), make_operation(c)), name="m")
+        xm = E["ExchangeMove"](np.array(state["labels"], dtype=int), make_operation(c))
+        if c.get("composite"):
+            # `move * n`: n particles exchanged in one trial (delta = +-n), with the shipped criteria
+            from quansino.mc.criteria import GrandCanonicalCriteria
+            mc.add_move(xm * int(c["composite"]), criteria=GrandCanonicalCriteria(), name="m")
+        else:
+            mc.add_move(xm, name="m")
     else:
         raise ValueError(sysname)
     mc.validate_simulation()
@@ -788,6 +794,9 @@ def ensemble_specs(tier):
         # an EMPTY box and the driver's default number of cycles per step: the gas has to appear all the same
         ("gc", {"species": "Ar", "lam": 3.0, "T": 300.0, "vol": 1000.0, "op": "translation", "n0": 0, "default_cycles": True},
          4000 if q else 40000),
+        # two particles exchanged per trial (`move * 2`, delta = +-2) with the shipped criteria
+        ("gc", {"species": "Ar", "lam": 3.0, "T": 300.0, "vol": 1000.0, "op": "translation", "n0": 3, "composite": 2},
+         4000 if q else 40000),
     ]
     if not q:
         specs += [
@@ -875,7 +884,8 @@ def run_ensemble(key, p, steps, seed):
         vacc = p["vol"] * p.get("vacc", 1.0)
         mu = kT * (math.log(lam) + 3 * log_wavelength(mass, p["T"]) - math.log(vacc))
         c = {"sys": "gc", "calc": "zero", "T": p["T"], "species": p["species"], "mu": mu, "op": p["op"], "pbc": True,
-             "cell": cell.ravel().tolist(), "n": p["n0"], "nframe": p.get("nframe", 0), "gseed": seed ^ 0x6C}
+             "cell": cell.ravel().tolist(), "n": p["n0"], "nframe": p.get("nframe", 0), "gseed": seed ^ 0x6C,
+             "composite": p.get("composite")}
         state = initial_state(c)
         mc = make_sim(c, state, seed, max_cycles=None if p.get("default_cycles") else 1)
         if "vacc" in p:
@@ -1030,7 +1040,7 @@ class EnsembleRuns(common.Suite):
         return obs
 
     def oracle(self, case, obs):
-        sysname = case["system"]
+        sysname = case["system"] + ("-composite" if case["params"].get("composite") else "")
         if "exception" in obs:
             return [(f"ensemble-average:{sysname}:exception:{obs['exception']}", obs.get("message", "") + obs.get("trace", "")[-600:])]
         out = []
